@@ -589,6 +589,7 @@ def drive(case, scratch):
                     err = res.error_in_exec or res.error_before_exec
                     r["result"] = repr(res.result)
                     r["error"] = type(err).__name__ if err is not None else None
+                    r["error_injected"] = err is not None and "injected at " in safe_str(err)
                 elif act == "inspect":
                     info = H.ip._ofind(text)
                     r["result"] = bool(info.found if hasattr(info, "found") else info["found"])
